@@ -46,6 +46,7 @@ func (o Op) String() string {
 // a checker loads every key and ranges.
 type Scenario struct {
 	Keys    int    `json:"keys"`
+	Types   string `json:"types,omitempty"` // "" = Map[int,int]; "string/any" = Map[string,any] (empty-string key, nil value)
 	Prefix  []Op   `json:"prefix"`
 	Clients [][]Op `json:"clients"`
 }
@@ -84,7 +85,7 @@ func (H) Decode(b []byte) (any, error) {
 func (H) Describe(sc any) string {
 	s := sc.(*Scenario)
 	var sb strings.Builder
-	fmt.Fprintf(&sb, "keys=%d prefix=%v", s.Keys, s.Prefix)
+	fmt.Fprintf(&sb, "Map[%s] keys=%d prefix=%v", map[string]string{"": "int,int", "string/any": "string,any"}[s.Types], s.Keys, s.Prefix)
 	for i, c := range s.Clients {
 		fmt.Fprintf(&sb, " c%d=%v", i, c)
 	}
@@ -120,6 +121,9 @@ func genOp(r *simrt.Rand, keys int, next *int) Op {
 // Generate implements core.Harness.
 func (H) Generate(r *simrt.Rand, tier string) any {
 	s := &Scenario{Keys: 1 + r.Intn(4)}
+	if r.Intn(4) == 0 {
+		s.Types = "string/any"
+	}
 	big := r.Intn(8) == 0
 	if big {
 		// sizes are a knob too: thresholds such as "misses >= len(dirty)" or any
@@ -197,7 +201,7 @@ func (H) Shrink(sc any) []any {
 	s := sc.(*Scenario)
 	var out []any
 	clone := func() *Scenario {
-		c := &Scenario{Keys: s.Keys, Prefix: append([]Op(nil), s.Prefix...)}
+		c := &Scenario{Keys: s.Keys, Types: s.Types, Prefix: append([]Op(nil), s.Prefix...)}
 		for _, cl := range s.Clients {
 			c.Clients = append(c.Clients, append([]Op(nil), cl...))
 		}
@@ -237,19 +241,84 @@ func (H) Shrink(sc any) []any {
 	return out
 }
 
-func do(m *sync2.Map[int, int], o Op) Rec {
+// kv is the map under test behind int keys and values, so that the same
+// history can run against different type instantiations.
+type kv interface {
+	Load(k int) (int, bool)
+	Store(k, v int)
+	LoadOrStore(k, v int) (int, bool)
+	LoadAndDelete(k int) (int, bool)
+	Delete(k int)
+	Range(f func(k, v int) bool)
+}
+
+type intMap struct{ m sync2.Map[int, int] }
+
+func (x *intMap) Load(k int) (int, bool)           { return x.m.Load(k) }
+func (x *intMap) Store(k, v int)                   { x.m.Store(k, v) }
+func (x *intMap) LoadOrStore(k, v int) (int, bool) { return x.m.LoadOrStore(k, v) }
+func (x *intMap) LoadAndDelete(k int) (int, bool)  { return x.m.LoadAndDelete(k) }
+func (x *intMap) Delete(k int)                     { x.m.Delete(k) }
+func (x *intMap) Range(f func(k, v int) bool)      { x.m.Range(f) }
+
+// strAnyMap: string keys (the empty string included) and interface values; the
+// value 0 is the nil interface, a value like any other.
+type strAnyMap struct{ m sync2.Map[string, any] }
+
+func sk(k int) string {
+	if k == 0 {
+		return ""
+	}
+	return fmt.Sprint("k", k)
+}
+func ks(s string) int {
+	if s == "" {
+		return 0
+	}
+	var k int
+	fmt.Sscanf(s, "k%d", &k)
+	return k
+}
+func av(v int) any {
+	if v == 0 {
+		return nil
+	}
+	return v
+}
+func va(a any) int {
+	if a == nil {
+		return 0
+	}
+	return a.(int)
+}
+func (x *strAnyMap) Load(k int) (int, bool) { a, ok := x.m.Load(sk(k)); return va(a), ok }
+func (x *strAnyMap) Store(k, v int)         { x.m.Store(sk(k), av(v)) }
+func (x *strAnyMap) LoadOrStore(k, v int) (int, bool) {
+	a, ok := x.m.LoadOrStore(sk(k), av(v))
+	return va(a), ok
+}
+func (x *strAnyMap) LoadAndDelete(k int) (int, bool) {
+	a, ok := x.m.LoadAndDelete(sk(k))
+	return va(a), ok
+}
+func (x *strAnyMap) Delete(k int) { x.m.Delete(sk(k)) }
+func (x *strAnyMap) Range(f func(k, v int) bool) {
+	x.m.Range(func(k string, v any) bool { return f(ks(k), va(v)) })
+}
+
+func do(m kv, o Op) Rec {
 	r, _ := doNested(m, o, 1)
 	return r
 }
 
 // doAll performs o and returns its record followed by the records of the calls
 // its Range callback made.
-func doAll(m *sync2.Map[int, int], o Op, keys int) []Rec {
+func doAll(m kv, o Op, keys int) []Rec {
 	r, nested := doNested(m, o, keys)
 	return append([]Rec{r}, nested...)
 }
 
-func doNested(m *sync2.Map[int, int], o Op, keys int) (Rec, []Rec) {
+func doNested(m kv, o Op, keys int) (Rec, []Rec) {
 	var nested []Rec
 	rec := Rec{Op: o}
 	rec.Inv = simrt.Stamp()
@@ -290,13 +359,16 @@ func doNested(m *sync2.Map[int, int], o Op, keys int) (Rec, []Rec) {
 // Execute implements core.Harness.
 func (H) Execute(scAny any, cfg simrt.Config, st *core.Stats) (*simrt.Outcome, *core.Violation) {
 	sc := scAny.(*Scenario)
-	var m sync2.Map[int, int]
+	var m kv = &intMap{}
+	if sc.Types == "string/any" {
+		m = &strAnyMap{}
+	}
 	hist := make([][]Rec, 2+len(sc.Clients))
 	s := simrt.New(cfg)
 	s.Go(func() {
 		for _, o := range sc.Prefix {
 			simrt.Yield()
-			hist[0] = append(hist[0], doAll(&m, o, sc.Keys)...)
+			hist[0] = append(hist[0], doAll(m, o, sc.Keys)...)
 		}
 		var wg ssync.WaitGroup
 		wg.Add(len(sc.Clients))
@@ -308,7 +380,7 @@ func (H) Execute(scAny any, cfg simrt.Config, st *core.Stats) (*simrt.Outcome, *
 					simrt.Yield()
 					// the record is appended before the call so that an operation
 					// that never returns is still in the history as pending
-					hist[1+i] = append(hist[1+i], doAll(&m, o, sc.Keys)...)
+					hist[1+i] = append(hist[1+i], doAll(m, o, sc.Keys)...)
 				}
 			})
 		}
@@ -316,10 +388,10 @@ func (H) Execute(scAny any, cfg simrt.Config, st *core.Stats) (*simrt.Outcome, *
 		last := 1 + len(sc.Clients)
 		for k := 0; k < sc.Keys; k++ {
 			simrt.Yield()
-			hist[last] = append(hist[last], do(&m, Op{K: "load", Key: k}))
+			hist[last] = append(hist[last], do(m, Op{K: "load", Key: k}))
 		}
 		simrt.Yield()
-		hist[last] = append(hist[last], do(&m, Op{K: "range"}))
+		hist[last] = append(hist[last], do(m, Op{K: "range"}))
 	})
 	out := s.Run()
 	if v := core.OutcomeViolation(out); v != nil {
